@@ -5,8 +5,8 @@ from .. import common as C, genca, sim
 PID = 'C04'
 PROP_MODULE = 'J1939.Props.C04'
 UNITS = ['Name.ofBytes', 'Name.value', 'Name.bytes', 'Name.ofValue', 'MessageId.ofFields', 'MessageId.can_id']
-ASSUMPTIONS = ["handler-level theorems (every CA state, every claim); uniqueness at quiescence and settling over all schedules are exercised by "
-               "the network oracle on real stacks, not yet a single Lean theorem",
+ASSUMPTIONS = ["handler-level theorems (every CA state, every claim) and the network invariant / uniqueness at quiescence over every interleaving "
+               "(Model/CaNet.lean); bounded settling in real time is exercised by the network oracle on real stacks",
                "room below 247 for every possible loss (the code does not range-check the incremented address)"]
 
 
@@ -23,9 +23,11 @@ def claim_case(rng):
     names = rng.sample(range(1, 4000), n)
     # names differing in the manufacturer code / other fields as well
     cas = []
+    dll = rng.choice(['j1939-21', 'j1939-21', 'j1939-22'])
     for i in range(n):
-        w.new_stack()
-    net = sim.Net(w, latency=lambda r, a, b, f: r.choice(lat), tick_latency=lambda r, i: r.choice([0, 0, 500]))
+        w.new_stack(dll=dll)
+    # a claim exchange among n <= 4 CAs needs at most a few hundred frames; far beyond that the bus never gets quiet
+    net = sim.Net(w, latency=lambda r, a, b, f: r.choice(lat), tick_latency=lambda r, i: r.choice([0, 0, 500]), max_frames=4000)
     plan = []
     # NAMEs that differ in ONE field only (all others equal), so that every field takes part in an arbitration somewhere
     field = rng.choice(['identity_number', 'manufacturer_code', 'function', 'ecu_instance', 'function_instance', 'vehicle_system',
@@ -85,26 +87,57 @@ def claim_case(rng):
                       and fr[3] == list(v.to_bytes(8, 'little'))]
             if not frames:
                 bad.append(f"CA {v:#x} went cannot-claim without announcing it from address 254")
-    if net.errors:
+    if net.flood:
+        bad.insert(0, f"the bus never gets quiet: more than {net.max_frames} frames; last: "
+                      f"{[(hex(f[2]), f[1]) for f in net.bus[-4:]]}")
+    elif net.errors:
         bad.append(f"exception {net.errors[0]}")
-    return bad, dict(n=n, base=base, latency=lat, plan=plan, final=[(s, a, hex(v), aac, p) for (s, a, v, aac, p) in st])
+    return bad, dict(dll=dll, n=n, base=base, latency=lat, plan=plan, final=[(s, a, hex(v), aac, p) for (s, a, v, aac, p) in st])
+
+
+def dispatch_case(rng):
+    """an ADDRESS CLAIMED frame reaches EVERY CA of the stack whatever its state (a CA that is still waiting out its veto
+    period, or has no address, must see contending claims) — on both data link layers"""
+    w = sim.World(C.REPO)
+    j = w.j
+    dll = rng.choice(['j1939-21', 'j1939-22'])
+    s = w.new_stack(dll=dll)
+    states = [rng.choice([0, 1, 2, 3]) for _ in range(rng.choice([1, 2, 3]))]
+    seen = []
+    cas = []
+    for k, stt in enumerate(states):
+        ca = j.ControllerApplication(j.Name(arbitrary_address_capable=rng.random() < 0.5, identity_number=100 + k), 128 + k)
+        s.ecu.add_ca(controller_application=ca)
+        ca._device_address_state = stt
+        if stt == 2:
+            ca._device_address = 128 + k
+        ca._process_addressclaim = (lambda k: lambda mid, data, ts: seen.append(k))(k)
+        cas.append(ca)
+    sa = rng.choice([0, 5, 128, 129, 200, 253, 254])
+    dest = 255
+    s.notify((6 << 26) | (0xEE << 16) | (dest << 8) | sa, list(rng.randrange(256) for _ in range(8)))
+    bad = []
+    if sorted(seen) != list(range(len(states))):
+        bad.append(f"{dll}: address-claimed frame from {sa} reached CAs {sorted(seen)} of {len(states)} (CA states {states})")
+    return bad, dict(kind='dispatch', dll=dll, states=states, sa=sa)
 
 
 def oracle(ctx, full):
     rng = random.Random(ctx.seed * 7907 + 4)
     n = ctx.n(120, 5000, full)
     findings, evals, distinct, samples = [], 0, set(), []
-    for _ in range(n):
-        bad, desc = claim_case(random.Random(rng.getrandbits(48)))
+    for it in range(n):
+        bad, desc = (dispatch_case if it % 5 == 4 else claim_case)(random.Random(rng.getrandbits(48)))
         evals += 1
         distinct.add(C.struct_hash(desc))
         if len(samples) < 2:
             samples.append(desc)
         if bad:
-            findings.append(dict(signature=dict(family='address-claim'), what=bad[0], scenario=desc, all=bad[:5]))
+            findings.append(dict(signature=dict(family='claim-dispatch' if desc.get('kind') == 'dispatch' else 'address-claim'), what=bad[0], scenario=desc, all=bad[:5]))
             break
     return dict(findings=findings, evaluations=evals, distinct_nontrivial=len(distinct), samples=samples,
-                rule="2-4 CAs on separate real stacks, NAMEs differing in identity / manufacturer code (incl. codes >= 1024) / function, each "
+                rule="(every fifth case: an address-claimed frame reaches every CA of a stack whatever its state, both data link layers) "
+                     "2-4 CAs on separate real stacks (J1939-21 or J1939-22), the bus gets quiet (at most 4000 frames), NAMEs differing in identity / manufacturer code (incl. codes >= 1024) / function, each "
                      "arbitrary-address-capable or not, preferred addresses equal / adjacent in the veto or the immediate range, start times and "
                      "claim delays on a grid around the 250 ms veto window, latencies {0, 1 ms, 5 ms}; after 6 s: all settled, operational "
                      "addresses unique, lowest NAME keeps each contested address, non-capable losers announced cannot-claim from 254")
